@@ -1369,36 +1369,46 @@ class Explorer:
         self.dfs(st, [], self.update_pending([], None, st), 0, copy)
 
     def clone(self, state, copy):
-        mode = self.cfg.get("mode")
-        if mode == "roundtrip":
-            ser = self.mods["ser"]
-            try:
-                js = ser.state_to_json(state)
-                st2 = ser.json_to_state(js)
-            except Hang:
-                raise
-            except Exception as e:  # noqa: BLE001 - C11's business (e.g. a regex in a variable)
-                self.sink["roundtrip_errors"] += 1
-                return copy.deepcopy(state)
-            instrument_state(st2)
-            TR.state = st2
-            TR.enabled = True
-            TR.begin_segment()
-            a = snapshot(state_view(state, st2, self))
-            b = snapshot(st2)
-            TR.enabled = False
-            self.sink["roundtrips"] += 1
-            ka = {k: a[k] for k in ("insts", "index", "rev", "queue", "actions")}
-            kb = {k: b[k] for k in ("insts", "index", "rev", "queue", "actions")}
-            if ka != kb or b["problems"]:
-                self.sink["findings"].append({
-                    "sig": "roundtrip-changes-index-layer" if ka != kb else "roundtrip-loses-callbacks",
-                    "what": "json_to_state(state_to_json(state)) differs from the live state in instances/heads/index/reverse map"
-                            if ka != kb else "; ".join(b["problems"][:3]),
-                    "details": {"before": ka, "after": kb} if ka != kb else {"problems": b["problems"]},
-                    "program": self.prog["id"], "src": self.prog["src"], "history": "(at a node)", "mode": mode})
-            return st2
-        return copy.deepcopy(state)
+        return self.deepcopy_state(state, copy)
+
+    def roundtrip(self, state):
+        """json_to_state(state_to_json(state)): the callbacks are re-created there.  The abstract
+        snapshot must be unchanged and every head must carry callbacks bound to the NEW state."""
+        ser = self.mods["ser"]
+        try:
+            js = ser.state_to_json(state)
+            st2 = ser.json_to_state(js)
+        except Hang:
+            raise
+        except Exception:  # noqa: BLE001 - C11's business (e.g. a regex in a variable)
+            self.sink["roundtrip_errors"] += 1
+            return state
+        instrument_state(st2)
+        TR.state = st2
+        TR.enabled = True
+        TR.begin_segment()
+        a = snapshot(state)
+        b = snapshot(st2)
+        TR.enabled = False
+        self.sink["roundtrips"] += 1
+        ka = {k: a[k] for k in ("insts", "index", "rev", "queue", "actions")}
+        kb = {k: b[k] for k in ("insts", "index", "rev", "queue", "actions")}
+        if ka != kb or b["problems"]:
+            self.sink["findings"].append({
+                "sig": "roundtrip-changes-index-layer" if ka != kb else "roundtrip-loses-callbacks",
+                "what": "json_to_state(state_to_json(state)) differs from the live state in instances/heads/index/reverse map"
+                        if ka != kb else "; ".join(b["problems"][:3]),
+                "details": {"before": ka, "after": kb} if ka != kb else {"problems": b["problems"]},
+                "program": self.prog["id"], "src": self.prog["src"], "history": "(at a node)", "mode": "roundtrip"})
+        return st2
+
+    @staticmethod
+    def deepcopy_state(state, copy):
+        # the flow configurations are not modified after initialize_state: share them between the copies
+        memo = {id(state.flow_configs): state.flow_configs}
+        for fc in state.flow_configs.values():
+            memo[id(fc)] = fc
+        return copy.deepcopy(state, memo)
 
     def dfs(self, state, hist, pending, depth, copy):
         """Breadth first by history length, so that a budget cut only loses the longest histories."""
@@ -1407,13 +1417,24 @@ class Explorer:
         for d in range(depth, self.cfg["max_len"]):
             nxt = []
             for (st0, h0, pend0) in level:
+                if self.cfg.get("mode") == "roundtrip":
+                    signal.setitimer(signal.ITIMER_REAL, 30)
+                    try:
+                        st0 = self.roundtrip(st0)
+                    except Hang:
+                        self.sink["truncated"] = True
+                        return
+                    finally:
+                        signal.setitimer(signal.ITIMER_REAL, 0)
                 for sym in self.prog["alphabet"]:
                     scheds = [()]
                     done = 0
                     while scheds and done < self.cfg.get("max_scheds", 3):
-                        if time.time() > self.deadline:
+                        if time.time() > self.deadline or self.sink["runs"] >= self.cfg.get("max_runs", 10**9):
                             self.sink["truncated"] = True
                             self.sink["truncated_at_len"] = d + 1
+                            if time.time() > self.deadline:
+                                self.sink["truncated_by_time"] = True
                             return
                         pre = scheds.pop(0)
                         ev = self.concretise(sym, pend0)
@@ -1438,11 +1459,6 @@ class Explorer:
                             nxt.append((st2, h2, self.update_pending(pend0, sym, st2)))
             level = nxt
             self.sink["complete_len"] = d + 1
-
-
-def state_view(old, new, ex):
-    """The live state, seen with the callbacks check relative to itself."""
-    return old
 
 
 def new_sink():
@@ -1581,7 +1597,7 @@ def run(tier, seed, replay=None):
 
     quick = tier == "quick"
     cfg = {"max_len": 3 if quick else 4, "max_scheds": 3 if quick else 8, "run_timeout_s": 5,
-           "prog_budget_s": 6 if quick else 20}
+           "prog_budget_s": 30 if quick else 90, "max_runs": 130 if quick else 1200}
     progs, libs = [], []
     corpus_dir = os.path.join(C.VERIF, "corpus", PID)
     corpus = []
@@ -1624,6 +1640,7 @@ def run(tier, seed, replay=None):
     segs, snaps = {}, {}
     findings, unknown, drift, snapprob, unsupported, crashes = [], [], [], [], [], []
     truncated = 0
+    truncated_time = 0
     complete = {}
     per_mode = {}
     for pid_, rec in results.items():
@@ -1638,6 +1655,7 @@ def run(tier, seed, replay=None):
         loads[ld] = loads.get(ld, 0) + 1
         per_mode[str(rec.get("mode"))] = per_mode.get(str(rec.get("mode")), 0) + 1
         truncated += 1 if r["truncated"] else 0
+        truncated_time += 1 if r.get("truncated_by_time") else 0
         complete[r.get("complete_len", 0)] = complete.get(r.get("complete_len", 0), 0) + 1
         for s in r["segments"]:
             segs.setdefault(s["hash"], s)
@@ -1724,7 +1742,8 @@ def run(tier, seed, replay=None):
             "programs": len(all_progs), "programs_with_result": len(results), "generated": len(progs), "library_variants": len(libs),
             "corpus": len(corpus), "modes": per_mode, "load": loads, "library_load": lib_status,
             "history_length": cfg["max_len"], "choice_schedules_per_event": cfg["max_scheds"], "random_choice_points": agg["choice_points"],
-            "op_mix": op_hist, "run_status": status_counts, "programs_truncated_by_budget": truncated,
+            "op_mix": op_hist, "run_status": status_counts, "programs_truncated_by_run_budget": truncated, "of_which_by_wall_clock(nondeterministic)": truncated_time,
+            "max_runs_per_program": cfg.get("max_runs"),
             "programs_by_exhaustively_explored_history_length": {str(k): v for k, v in sorted(complete.items())},
             "json_roundtrips": agg["roundtrips"], "json_roundtrip_errors(C11)": agg["roundtrip_errors"],
         },
